@@ -566,6 +566,15 @@ func padGen(s pbt.Src, thorough bool) PadCase {
 		size = pbt.Range(s, -5, len(str))
 	case 2:
 		size = len(str) + pbt.Range(s, 1, 400)
+	case 3:
+		// long paddings: tens of thousands of bytes, i.e. thousands of copies of the token (a block-wise fill has many blocks)
+		size = len(str) + pbt.Pick(s, 4097, 8193, 16385, 20481, 32769, 40001, 70000)
+		if len(str) > 64 {
+			str = str[:64]
+			for !utf8.ValidString(str) && len(str) > 0 {
+				str = str[:len(str)-1]
+			}
+		}
 	default:
 		size = len(str) + pbt.Range(s, -2, 24)
 	}
